@@ -101,7 +101,7 @@ v("struct-plan-noslot", ["C05", "C03", "C01"], STR, "                           
 v("slot-roundown", ["C05", "C03"], "typeutils.py", "    return (size + 7) & (-8)", "    return size & (-8)", rule="A0")
 v("offsets-index-order", ["C05", "C01"], ARR, "                np.ascontiguousarray(info.offsets.transpose(info.order)),", "                np.ascontiguousarray(info.offsets),", rule="L4")
 v("bulk-index-order", ["C01"], ARR, "            if list(info.order) != list(range(len(info.shape))):\n                # not C order: store the data in memory order\n                value = value.transpose(info.order).copy()\n", "", rule="L4")
-v("tonplike-order", ["C01"], ARR, "            ).transpose([self._order.index(ii) for ii in range(len(shape))])\n            assert arr.strides == self._strides\n            return arr\n        else:\n            raise NotImplementedError\n\n    def to_nparray", "            ).transpose(self._order)\n            assert arr.strides == self._strides\n            return arr\n        else:\n            raise NotImplementedError\n\n    def to_nparray", rule="L4")
+v("tonplike-order", ["C01"], ARR, "            ).transpose([self._order.index(ii) for ii in range(len(shape))])\n            # (numpy normalises the strides of arrays without elements)\n            assert arr.size == 0 or arr.strides == self._strides\n            return arr\n        else:\n            raise NotImplementedError\n\n    def to_nparray", "            ).transpose(self._order)\n            # (numpy normalises the strides of arrays without elements)\n            assert arr.size == 0 or arr.strides == self._strides\n            return arr\n        else:\n            raise NotImplementedError\n\n    def to_nparray", rule="L4")
 v("strides-wrong-perm", ["C01", "C05", "C02"], ARR, "    return tuple(cstrides[order.index(ii)] for ii in range(len(order)))", "    return tuple(cstrides[order[ii]] for ii in range(len(order)))", rule="L1")
 v("header-dims-after-strides", ["C05", "C01", "C06"], ARR, "            for ii, nd in enumerate(cls._shape):\n                if nd is None:\n                    header.append(info.shape[ii])\n            if len(cls._shape) > 1:\n                header.extend(info.strides)", "            if len(cls._shape) > 1:\n                header.extend(info.strides)\n            for ii, nd in enumerate(cls._shape):\n                if nd is None:\n                    header.append(info.shape[ii])", rule="L1")
 v("struct-first-dyn-word", ["C05", "C01", "C06"], STR, "                for field in d_fields[1:]:\n                    field.offset = offset\n                    field.is_reference = True", "                for field in d_fields[:-1]:\n                    field.offset = offset\n                    field.is_reference = True", rule="L2")
@@ -195,6 +195,32 @@ v("free-benign-bisect", ["C12", "C04"], CTX, "            for ic, ch in enumerat
 # ---- shared handle caches (M3)
 v("update-inplace-cache", ["C09", "C10"], STR, "            self._offsets = {\n                field.index: Int64._from_buffer(\n                    self._buffer, self._offset + field.offset\n                )\n                for field in self._d_fields\n            }", "            for field in self._d_fields:\n                self._offsets[field.index] = Int64._from_buffer(\n                    self._buffer, self._offset + field.offset\n                )", rule="M3", note="PF21 twin: in-place edit of a dict shared with the source of a copy")
 v("update-benign-rebind-loop", ["C09", "C10", "C06"], STR, "            self._offsets = {\n                field.index: Int64._from_buffer(\n                    self._buffer, self._offset + field.offset\n                )\n                for field in self._d_fields\n            }", "            fresh = {}\n            for field in self._d_fields:\n                fresh[field.index] = Int64._from_buffer(\n                    self._buffer, self._offset + field.offset\n                )\n            self._offsets = fresh", expect="silent", note="rebinding through a local dict")
+
+# ------------------------------------------------------------------ defective twins of PF51-PF57 (the repair undone on HEAD)
+v("undo-PF51-string-slot-size", ["C10", "C06"], "string.py",
+  "            # only the characters: the slot keeps the size it was given\n            nchars = value._size - 8\n            buffer.update_from_xbuffer(\n                offset + 8, value._buffer, value._offset + 8, nchars\n            )\n            if string_capacity > nchars:\n                buffer.update_from_buffer(\n                    offset + 8 + nchars,\n                    b\"\\x00\" * (string_capacity - nchars),\n                )\n",
+  "            buffer.update_from_xbuffer(\n                offset, value._buffer, value._offset, value._size\n            )\n", rule="SV.str-item-from-object")
+v("undo-PF52-struct-update-restore", ["C11", "C10"], STR,
+  "            except Exception:\n                self._buffer.update_from_buffer(self._offset, saved)\n                raise\n",
+  "            except Exception:\n                raise\n", rule="SV.update-dict-refused-late")
+v("undo-PF52-array-update-restore", ["C11", "C10"], ARR,
+  "            except Exception:\n                self._buffer.update_from_buffer(self._offset, saved)\n                raise\n",
+  "            except Exception:\n                raise\n", rule="SV.array-update-refused-late")
+v("restore-wrong-place", ["C11"], STR,
+  "                self._buffer.update_from_buffer(self._offset, saved)\n                raise\n",
+  "                self._buffer.update_from_buffer(self._offset + 8, saved)\n                raise\n", rule="SV.update-dict-refused-late")
+v("undo-PF53-copy-spare-room", ["C09"], ARR,
+  "                if isinstance(value, cls) and not cls._has_refs:\n                    # copied as it is: its items may have room to spare\n                    offsets[...] = value._offsets\n                    offset = value._size\n                else:\n                    for idx in iter_index(shape, order):\n                        extra[idx] = cls._itemtype._inspect_args(\n                            items_of[idx]\n                        )\n                        offsets[idx] = offset\n                        offset += _to_slot_size(extra[idx].size)\n",
+  "                for idx in iter_index(shape, order):\n                    extra[idx] = cls._itemtype._inspect_args(items_of[idx])\n                    offsets[idx] = offset\n                    offset += _to_slot_size(extra[idx].size)\n", rule="SV.str-copy")
+v("undo-PF54-order-string", ["C01"], ARR,
+  "                data[\"_dshape_idx\"] = dshape\n                data[\"_order\"] = mk_order(data[\"_order\"], _shape)\n",
+  "                data[\"_dshape_idx\"] = dshape\n", rule="L1.eval")
+v("undo-PF55-ctor-struct-name", ["C18"], HY,
+  "                dressed_kwargs[self._rename.get(kk, kk)] = vv\n", "                dressed_kwargs[kk] = vv\n", rule="HX.ctor-struct-name")
+v("undo-PF56-ref-dict-names", ["C19"], HY,
+  "            ftype = getattr(ftype, \"_reftype\", ftype)\n", "", rule="HX.ref-dict-renamed")
+v("undo-PF57-field-copy", ["C18", "C19"], STR,
+  "                data[aname] = copy(field)\n", "                data[aname] = field\n", rule="HX.field-table-reuse")
 
 out = os.path.join(os.path.dirname(os.path.abspath(__file__)), "variants.json")
 ids = [x["id"] for x in V]
